@@ -1,4 +1,5 @@
-import Tup.Lemmas.PhRow
+import Tup.Lemmas.PhChoreo
+import Tup.Lemmas.PhModel
 /-!
   C07 — printed Unicode placeholders decode to exactly the requested image cells.
 
@@ -138,6 +139,72 @@ theorem line_decodes_row (t : Term) (p : Placeholder) (m : Mode) (fmt : FmtT) (r
   rw [List.append_assoc, decodeRow_nonph_append _ _ hleft, decodeRow_append_nonph _ _ hright, hdec]
   simp [List.append_assoc]
 
+/-- **Model bytes are the tokens**: the byte-level model that the correspondence check compares with /repo's `to_lines`
+    is the serialisation of the token lines the theorems talk about (formatting bytes = serialised formatting tokens). -/
+theorem model_bytes_are_tokens (p : Placeholder) (m : Mode) (fmt : FmtT) (h : p.startCol < tableLen) :
+    p.toLines m fmt.toFmt false = .ok ((p.lineToksAll m fmt).map serialize) := toLines_eq_serialize p m fmt h
+
+/-- **(C) `choreography`, absolute-position style** (`to_stream_abs_position`, `to_stream(pos=…)`).  From ANY terminal state,
+    if the rectangle fits the screen at `(px, py)` (`px + C ≤ W`, `py + R ≤ H`), then after the complete output
+    * row `py + i` columns `px … px + C - 1` decode to `(id, pid, start_row + i, start_col + j)` for every image row < 297
+      (the positions of DESIGN.md A.5), and are spaces for image rows ≥ 297;
+    * every cell outside the rectangle is unchanged (so: no placeholder cell anywhere else on a screen that had none);
+    * the cursor is at `(px + C, py + R - 1)` and the colours are default.
+    Holds for both values of every `TermCfg` parameter. -/
+theorem choreography_abs (t : Term) (p : Placeholder) (m : Mode) (fmt : FmtT) (px py : Nat)
+    (hp : p.valid = true) (hm : m.valid = true) (hsc : p.startCol < 297) (hfmt : BgOnly fmt)
+    (hw : px + (p.endCol - p.startCol) ≤ t.w) (hh : py + (p.endRow - p.startRow) ≤ t.h) :
+    let t' := t.feedAll (streamToks (.abs px py) (p.endCol - p.startCol) (p.lineToksAll m fmt))
+    (∀ i < p.endRow - p.startRow, p.startRow + i < 297 →
+      decodeRow none ((List.range (p.endCol - p.startCol)).map fun j => t'.cells (py + i) (px + j)) =
+        (List.range (p.endCol - p.startCol)).map fun j => some ⟨p.imageId, p.placementId, p.startRow + i, p.startCol + j⟩) ∧
+    (∀ i < p.endRow - p.startRow, 297 ≤ p.startRow + i → ∀ j < p.endCol - p.startCol, (t'.cells (py + i) (px + j)).ch = 32) ∧
+    (∀ y x, ¬ (py ≤ y ∧ y < py + (p.endRow - p.startRow) ∧ px ≤ x ∧ x < px + (p.endCol - p.startCol)) →
+      t'.cells y x = t.cells y x) ∧
+    t'.cx = px + (p.endCol - p.startCol) ∧ t'.cy = py + (p.endRow - p.startRow) - 1 ∧ t'.sgr = {} := by
+  have hp' := hp
+  simp only [Placeholder.valid, Bool.and_eq_true, decide_eq_true_eq] at hp'
+  simp only [Mode.valid, Bool.and_eq_true, decide_eq_true_eq] at hm
+  obtain ⟨⟨⟨⟨hid0, hid⟩, hpid⟩, hlt⟩, hrows⟩ := hp'
+  intro t'
+  have ht' : t' = absResult p m fmt px (p.endRow - p.startRow) p.startRow py t := by
+    have := feed_abs p m fmt px py hsc hlt hfmt (p.endRow - p.startRow) 0 p.startRow t hw (by simpa using hh)
+    simpa [t', streamToks, Placeholder.lineToksAll] using this
+  have hread : ∀ i < p.endRow - p.startRow,
+      ((List.range (p.endCol - p.startCol)).map fun j => t'.cells (py + i) (px + j)) = rowCells p m fmt (p.startRow + i) := by
+    intro i hi
+    apply List.ext_getElem
+    · simp [rowCells_length p m fmt _ hlt]
+    · intro j h1 h2
+      simp only [List.getElem_map, List.getElem_range, ht', absResult_cells p m fmt px hlt]
+      have hj : j < p.endCol - p.startCol := by simpa using h1
+      have hc : py ≤ py + i ∧ py + i < py + (p.endRow - p.startRow) ∧ px ≤ px + j ∧ px + j < px + (p.endCol - p.startCol) := by omega
+      have e1 : py + i - py = i := by omega
+      have e2 : px + j - px = j := by omega
+      simp [hc, e1, e2, h2]
+  refine ⟨?_, ?_, ?_, ?_⟩
+  · intro i hi hrow
+    rw [hread i hi]
+    simp only [rowCells, hrow, if_true]
+    rw [decodeRow_lineScreenCells p m fmt _ (by omega) hpid ⟨hm.1.1, hm.1.2⟩ hrow hsc hlt hfmt, List.range'_eq_map_range]
+    simp [List.map_map, Function.comp_def]
+  · intro i hi hrow j hj
+    have h := hread i hi
+    have hj' : j < ((List.range (p.endCol - p.startCol)).map fun j => t'.cells (py + i) (px + j)).length := by simp [hj]
+    have := List.getElem_of_eq h hj'
+    simp only [List.getElem_map, List.getElem_range] at this
+    rw [this]
+    have hnot : ¬ p.startRow + i < 297 := by omega
+    simp only [rowCells, hnot, if_false]
+    exact blankScreenCells_ch p fmt _ _ (List.getElem_mem _)
+  · intro y x hn
+    rw [ht', absResult_cells p m fmt px hlt]
+    simp [hn]
+  · obtain ⟨n, hn⟩ : ∃ n, p.endRow - p.startRow = n + 1 := ⟨p.endRow - p.startRow - 1, by omega⟩
+    rw [ht', hn]
+    have := absResult_cursor p m fmt px n p.startRow py t
+    exact ⟨this.1, by rw [this.2.1]; omega, this.2.2⟩
+
 /-- the hypotheses of `line_decodes` are satisfiable: ID 0x01020304 (needs the 3rd diacritic and 24-bit colour),
     placement 5, columns 1..3 of row 0, default mode, on a 10-column terminal -/
 example : (⟨0x01020304, 5, 1, 0, 4, 2⟩ : Placeholder).valid = true ∧ (displayMode false).valid = true ∧
@@ -156,8 +223,9 @@ example : (⟨0x01020304, 5, 1, 0, 4, 2⟩ : Placeholder).valid = true ∧ (disp
         let t' := feedAll (blank W H at (x0,y0)) (streamToks style …);
         ∀ i < R, ∀ j < C, decode t' (expectedPos style i j) = some ⟨id, pid, startRow+i, startCol+j⟩ ∧ every other cell is blank
       with the hypothesis `cfg.cubFromW` for the relative style touching the right margin.
-      Proved: the absolute-position style, `Tup.C07.choreography_abs` in Tup/Props/C07.lean when present; the per-line
-      statements `line_decodes` + `line_frame` are the induction step for the other styles.  TODO: at-cursor styles with scrolling.
+      Proved above: the absolute-position style (`choreography_abs`, any start state, both values of every terminal
+      parameter).  The per-line statements `line_decodes` + `line_frame` are the induction step for the other styles.
+      TODO: the at-cursor styles (save/restore, relative, line feeds) with scrolling.
 -/
 
 end Tup.C07
